@@ -237,6 +237,7 @@ theorem conclude_foreign (sc : Scenario) (a : Bool) (w : Nat) (st : Stage) :
 def Regular (sc : Scenario) (e : Ending) : Prop :=
   match e with
   | .info => True
+  | .exported _ _ => False                                                  -- exportonly
   | .finished a w => wantsFile a w = true                                   -- standalone
   | .raised a w st r =>
       r ≠ .foreign ∧                                                          -- foreign
@@ -249,6 +250,7 @@ instance (sc : Scenario) (e : Ending) : Decidable (Regular sc e) := by
   unfold Regular
   cases e with
   | info => exact inferInstance
+  | exported a w => exact inferInstance
   | finished a w => exact inferInstance
   | raised a w st r =>
     -- the last conjunct quantifies over `c`, but `r.toExn` determines it
